@@ -101,7 +101,7 @@ def step_count(a):
 class C01(Prop):
     pid = "C01"
     module = "TrVerif.Props.C01"
-    streams = [("tmpl", 4), ("overlap", 2), ("sparse", 1), ("dense", 1), ("xfer", 1), ("parallel", 1), ("zero", 1)]
+    streams = [("tmpl", 4), ("closer", 3), ("overlap", 2), ("sparse", 1), ("dense", 1), ("xfer", 1), ("parallel", 1), ("zero", 1)]
     rule = ("datasets from the streams tmpl/overlap/sparse/dense/xfer/parallel/zero, 4 route requests + 1 alternatives request each; "
             "a case is non-trivial when the implementation returned a route; distinct = distinct (dataset, answer)")
 
@@ -124,7 +124,7 @@ class C01(Prop):
 class C02(Prop):
     pid = "C02"
     module = "TrVerif.Props.C02"
-    streams = [("sparse", 2), ("dense", 2), ("overlap", 1), ("parallel", 2), ("xfer", 1), ("hours", 1)]
+    streams = [("sparse", 2), ("dense", 2), ("overlap", 1), ("parallel", 2), ("xfer", 1), ("hours", 1), ("closer", 1)]
     rule = ("datasets with several scenarios (service / only / except lists) and every encoding of the limits (absent, <= 0, tight, loose); "
             "non-trivial = a route was returned; distinct (dataset, answer)")
 
@@ -184,7 +184,7 @@ class C03(Prop):
 class C04(C03):
     pid = "C04"
     module = "TrVerif.Props.C04"
-    streams = [("sparse", 2), ("dense", 4), ("overlap", 1), ("parallel", 1), ("hours", 2), ("tmpl", 1)]
+    streams = [("sparse", 2), ("dense", 4), ("overlap", 1), ("parallel", 1), ("hours", 2), ("tmpl", 1), ("closer", 2)]
     rule = ("arrival-time route requests on datasets with positive hop times and no `transferable` line; dense stream gives competing "
             "departures within one minimum-waiting window; non-trivial = journey exists; distinct (dataset, request)")
 
@@ -214,7 +214,7 @@ class C04(C03):
 class C05(C03):
     pid = "C05"
     module = "TrVerif.Props.C05"
-    streams = [("sparse", 2), ("dense", 4), ("overlap", 1), ("parallel", 1), ("hours", 2), ("tmpl", 1)]
+    streams = [("sparse", 2), ("dense", 4), ("overlap", 1), ("parallel", 1), ("hours", 2), ("tmpl", 1), ("closer", 2)]
     rule = ("departure-time requests (cap disabled) on the C03+C04 domain; the reported departure is compared with the latest departure "
             ">= requested that still meets the reported arrival; non-trivial = success; distinct (dataset, request)")
 
@@ -241,7 +241,7 @@ class C05(C03):
 class C06(Prop):
     pid = "C06"
     module = "TrVerif.Props.C06"
-    streams = [("tmpl", 2), ("overlap", 2), ("sparse", 1), ("dense", 1), ("xfer", 2), ("parallel", 2)]
+    streams = [("tmpl", 2), ("overlap", 2), ("sparse", 1), ("dense", 1), ("xfer", 2), ("parallel", 2), ("closer", 1)]
     rule = ("every route of every successful answer (single and alternatives); non-trivial = route with >= 1 boarding; distinct (dataset, answer); "
             "counts/walking totals are only demanded for routes without `transferable` lines")
 
@@ -347,7 +347,7 @@ class C08(Prop):
 class C09(C08):
     pid = "C09"
     module = "TrVerif.Props.C09"
-    streams = [("sparse", 2), ("dense", 3), ("overlap", 1), ("parallel", 1), ("hours", 2), ("tmpl", 1)]
+    streams = [("sparse", 2), ("dense", 3), ("overlap", 1), ("parallel", 1), ("hours", 2), ("tmpl", 1), ("closer", 2)]
     rule = ("arrival-time accessibility requests on datasets with positive hop times and uniform minimum waiting; "
             "non-trivial = at least one stop listed; distinct (dataset, request)")
     forward = False
@@ -368,7 +368,7 @@ class C09(C08):
 class C10(Prop):
     pid = "C10"
     module = "TrVerif.Props.C10"
-    streams = [("parallel", 5), ("dense", 2), ("overlap", 1), ("tmpl", 1), ("xfer", 1)]
+    streams = [("parallel", 5), ("dense", 2), ("overlap", 1), ("tmpl", 1), ("xfer", 1), ("closer", 1)]
     rule = ("pairs (query, same query with alternatives=true); parallel-lines stream so that many answers have >= 3 routes; "
             "non-trivial = answer with >= 2 routes; distinct (dataset, request)")
 
@@ -442,10 +442,12 @@ class C11(Prop):
         # make sure there is a restricting scenario
         if len(d["scenarios"]) < 2 or rng.random() < 0.5:
             nl = len(d["lines"])
-            s = dict(services=sorted(rng.sample(range(d["nsv"]), rng.randint(1, d["nsv"]))), onlyLines=[], exceptLines=[], onlyAgencies=[], exceptAgencies=[], onlyModes=[], exceptModes=[])
+            s = dict(services=rng.sample(range(d["nsv"]), rng.randint(1, d["nsv"])), onlyLines=[], exceptLines=[], onlyAgencies=[], exceptAgencies=[], onlyModes=[], exceptModes=[])
             k = rng.choice(["exceptLines", "onlyLines", "exceptAgencies", "onlyAgencies", "exceptModes", "onlyModes", "services"])
             dom = {"exceptLines": nl, "onlyLines": nl, "exceptAgencies": d["nag"], "onlyAgencies": d["nag"], "exceptModes": 3, "onlyModes": 3}.get(k)
-            if dom: s[k] = sorted(rng.sample(range(dom), rng.randint(1, max(1, dom - 1))))
+            if dom: s[k] = rng.sample(range(dom), rng.randint(1, max(1, dom - 1)))      # unsorted on purpose
+            if rng.random() < 0.3 and nl >= 3:
+                s["exceptLines" if rng.random() < .5 else "onlyLines"] = rng.sample(range(nl), rng.randint(2, nl - 1))
             d["scenarios"].append(s)
         si = rng.randrange(1, len(d["scenarios"]))
         d2 = delete_excluded(d, si)
